@@ -31,6 +31,8 @@ pub enum Atom {
     Collect {},
     /// send the vault a forged `Callback(AfterTrade { old_balance, loan_amount })` (the vault's message to itself)
     Callback { old: Uint128, x: Uint128 },
+    /// as the vault's owner (when the vault has been handed to this contract): set the pause switches
+    Pause { d: Option<bool>, w: Option<bool>, l: Option<bool> },
     /// take a direct flash loan of `x` from the vault with call-back `Run { sub, target = vault }`
     Loan { x: Uint128, sub: Vec<Atom> },
 }
@@ -127,6 +129,17 @@ fn execute(deps: DepsMut, _env: Env, _info: MessageInfo, msg: AdvExecute) -> Std
                         }
                         .into(),
                     ),
+                    Atom::Pause { d, w, l } => msgs.push(
+                        WasmMsg::Execute {
+                            contract_addr: cfg.vault.clone(),
+                            msg: to_json_binary(&white_whale_std::vault_network::vault::ExecuteMsg::UpdateConfig(
+                                white_whale_std::vault_network::vault::UpdateConfigParams { flash_loan_enabled: l, deposit_enabled: d, withdraw_enabled: w,
+                                    new_owner: None, new_vault_fees: None, new_fee_collector_addr: None },
+                            ))?,
+                            funds: vec![],
+                        }
+                        .into(),
+                    ),
                     Atom::Collect {} => msgs.push(
                         WasmMsg::Execute {
                             contract_addr: cfg.vault.clone(),
@@ -171,6 +184,8 @@ pub fn atom_json(a: &Atom) -> Value {
         Atom::Deposit { x } => json!({"a": "deposit", "x": x.to_string()}),
         Atom::Withdraw { x } => json!({"a": "withdraw", "x": x.to_string()}),
         Atom::Collect {} => json!({"a": "collect"}),
+        Atom::Pause { d, w, l } => { let j = |x: &Option<bool>| match x { None => "none", Some(true) => "on", Some(false) => "off" };
+            json!({"a": "pause", "d": j(d), "w": j(w), "l": j(l)}) }
         Atom::Callback { old, x } => json!({"a": "fcb", "old": old.to_string(), "x": x.to_string()}),
         Atom::Loan { x, sub } => json!({"a": "loan", "x": x.to_string(), "sub": script_json(sub)}),
     }
